@@ -29,6 +29,7 @@ type Node struct {
 	Obs     []string // per-event observations in model syntax
 	Emitted []string // all emitted descriptors (for cross-schedule comparison)
 	Errs    []string
+	Culprits [][]string // per reported error: the node names of the culprits
 	Silent  bool // a silenced node: its emissions are dropped
 }
 
@@ -216,6 +217,25 @@ func (net *Net) Deliver(c *Copy) (bool, *tss.Error) {
 	ok, err := c.To.Party.UpdateFromBytes(c.Wire, c.From.PID, c.Bcast)
 	if err != nil {
 		c.To.Errs = append(c.To.Errs, fmt.Sprintf("Update(%s from %s): %v culprits=%v", c.Type, c.From.Name, err.Cause(), err.Culprits()))
+		var names []string
+		for _, pid := range err.Culprits() {
+			nm := "unknown:" + pid.String()
+			for _, n := range net.Nodes() {
+				if n.PID.KeyInt().Cmp(pid.KeyInt()) == 0 {
+					nm = n.Name
+					if len(net.Old) > 0 {
+						// in resharing one key may exist in both committees; prefer the committee the index refers to
+						if pid.Index == n.Idx {
+							break
+						}
+						continue
+					}
+					break
+				}
+			}
+			names = append(names, nm)
+		}
+		c.To.Culprits = append(c.To.Culprits, names)
 	}
 	net.observe(c.To, fmt.Sprintf("[%d %d %v]", c.TyIdx, c.From.Idx, c.Bcast), net.collect(c.To))
 	return ok, err
